@@ -104,7 +104,7 @@ CLAIMED: dict[str, tuple[str, str, str, str]] = {
     "C18": (
         "Lean 4 proof over executable models of __eq__/__hash__ (hash modelled by its input tree, xor commutative) + correspondence of the == matrix, hash-input classes, dumps and reachability flags on pools of spellings incl. derived objects with a hashing history + real-code oracle on all pairs and triples",
         "Machine-checked for all values: equality is an equivalence and equal values have equal hash inputs for versions, string constraints and markers; for version constraints with no guard on reachable values (parser, intersect and union are proved never to build a degenerate range); for specifications and dependencies (transitivity under exact references, hash coherence unconditional, derivation cannot change the hash input); interchangeability (same allows/validate) for versions, ranges, constraints of the regular setting incl. unions, string constraints and coherent markers; re-parse closure with C15's string-level round trip. Every run compares the model's == / hash-input classes with real == / hash() on pools with many spellings of one value, fresh and derived after hashing, and evaluates reflexivity, symmetry, transitivity, hash coherence, set membership, interchangeability and re-parse equality on the real objects.",
-        TB + "Partial: marker coherence (the constraint of a SingleMarker is the one its key denotes) is proved to be an invariant of parse_marker and of every operation of the marker algebra (intersect, union, cnf, dnf, of, simplify, invert, only, exclude, reduce) for every fuel and recursion stack, relative to two leaf-level constructor facts (parsed items; the SingleMarker(name, constraint) calls of _merge_single_markers) that are checked per object at run time; on the domain FullQLP (string variables with ==, !=, reversed in/not in; extra; python_version and python_full_version with the seven operators and python_version lists) both facts are discharged: `marker_coherent_parse_domain`, `_algebra_domain`, `_projections_domain` hold hypothesis-free. Deriving with_features/without_features yields a hash input that is a function of the derived fields only (`derived_hash_input`: the seeded change C18-3). Equal version constraints admit the same versions through allows for all non-unions, for unions in the regular setting and for `!=V` with any V; open: unions with local or same-release unequal bounds other than `!=V`. Two VCS-reference classes are known findings (by-design prefix matching); three defects fixed.",
+        TB + "Partial: marker coherence (the constraint of a SingleMarker is the one its key denotes) is proved to be an invariant of parse_marker and of every operation of the marker algebra (intersect, union, cnf, dnf, of, simplify, invert, only, exclude, reduce) for every fuel and recursion stack, relative to two leaf-level constructor facts (parsed items; the SingleMarker(name, constraint) calls of _merge_single_markers) that are checked per object at run time; on the domain FullQLP (string variables with ==, !=, reversed in/not in; extra; python_version and python_full_version with the seven operators and python_version lists) both facts are discharged: `marker_coherent_parse_domain`, `_algebra_domain`, `_projections_domain` hold hypothesis-free. Deriving with_features/without_features yields a hash input that is a function of the derived fields only (`derived_hash_input`: the seeded change C18-3). Equal version constraints (well-formed, as every parser and algebra result is) admit exactly the same versions through `allows` — proved for every constraint shape and every candidate, including unions whose `allows` runs VersionRange().difference(union) (`constraint_beq_interchangeable`, by a structural relation pushed through ~25 functions); the candidate may be replaced by an equal version as well; for parse_constraint results no hypothesis at all (`parsed_constraint_interchangeable`). Two VCS-reference classes are known findings (by-design prefix matching); three defects fixed.",
         "DESIGN.md §4 C18",
     ),
     "C02": (
